@@ -211,11 +211,39 @@ def run(prop, seed, budget, ctx):
                 failures.append({"part": "deserialize", "cls": c["cls"], "src": c["src"], "datum": d, "states": st, "real": r, "spec": s,
                                  "validators": c["validators"], "fields": c["fields"], "kind": "P", "k_ok": None,
                                  "why": ["validation-does-not-terminate" if "crash" in r else "invoked-validators-or-merged-errors-differ-from-the-specification"]})
+    # part 3: errors yielded with paths: the path (a key, an index - 0 included -, a sequence of them, or nothing) is where the
+    # error is placed, below the object for a plain validator, below the field alias for a field validator
+    from apischema import deserialize as _des, ValidationError as _VE
+    psrc = ["from dataclasses import dataclass, field", "from typing import *", "from apischema import validator, ValidationError, alias", ""]
+    npath = 10 * budget
+    for i in range(npath):
+        psrc += ["@dataclass", f"class Y{i}:", "    xs: List[int] = field(metadata=alias('XS'))", "    tag: str = 't'",
+                 "    @validator", "    def plain(self):", "        for i, x in enumerate(self.xs):", "            if x < 0:",
+                 f"                yield {['("XS", i)', '["XS", i]'][i % 2]}, 'negative'",
+                 "    @validator('xs')", "    def on_field(self):", "        for i, x in enumerate(self.xs):", "            if x > 100:", "                yield i, 'big'",
+                 "    @validator", "    def root(self):", "        if self.tag == 'bad':", f"            yield {['()', 'None', '[]'][i % 3]}, 'root message'", ""]
+    pmod = build_module(psrc, f"valpath{seed}")
+    n3 = 0
+    for i in range(npath):
+        Y = getattr(pmod, f"Y{i}")
+        for _ in range(6):
+            xs = [rnd.choice([-5, 1, 500, 7, -1, 101]) for _ in range(rnd.randint(1, 4))]; tag = rnd.choice(["t", "bad"])
+            want = sorted([[["XS", k], "negative"] for k, x in enumerate(xs) if x < 0] + [[["XS", k], "big"] for k, x in enumerate(xs) if x > 100]
+                          + ([[[], "root message"]] if tag == "bad" else []), key=json.dumps)
+            n3 += 1; distinct.add(("paths", i, tuple(xs), tag))
+            try: _des(Y, {"XS": xs, "tag": tag}); got = []
+            except _VE as e: got = sorted(([list(x["loc"]), x["err"]] for x in e.errors), key=json.dumps)
+            except Exception as e: got = "CRASH " + type(e).__name__
+            hist["yielded-paths"] += 1
+            if got != want:
+                failures.append({"part": "yielded-paths", "src": psrc[4 + 19 * i: 4 + 19 * (i + 1)], "datum": {"XS": xs, "tag": tag}, "real": got, "spec": want,
+                                 "kind": "P", "k_ok": None, "why": ["yielded-error-not-placed-at-its-path"]})
     for f in failures: hist["fail:" + f["why"][0] if isinstance(f["why"], list) else "fail:K"] += 1
-    return {"evaluations": n + n2, "distinct_nontrivial": len(distinct),
+    return {"evaluations": n + n2 + n3, "distinct_nontrivial": len(distinct),
             "rule": "part 1: lists of 1-5 real Validator objects over 4 fields (dependency sets, field=, discard= / empty discard, pass / fail) run by "
                     "the real validate(); part 2: generated dataclasses with @validator methods (raise / yield, field, discard) x data assigning each "
-                    "field absent / valid / triggering / invalid, through deserialize; non-trivial = more than one validator",
+                    "field absent / valid / triggering / invalid, through deserialize; part 3: validators yielding errors with paths (a key and an index, an index alone - 0 included -, "
+                    "the empty path) over generated lists; non-trivial = more than one validator",
             "samples": samples, "histograms": dict(hist), "correspondence": {"compared_with_model": n, "disagreements": kbad},
             "failures": failures}
 
@@ -225,6 +253,13 @@ def is_known(kid, case):
 
 
 def replay(prop, case, ctx):
+    if case.get("part") == "yielded-paths":
+        from apischema import deserialize, ValidationError
+        mod = build_module(["from dataclasses import dataclass, field", "from typing import *", "from apischema import validator, ValidationError, alias", ""] + case["src"], "valpathreplay")
+        Y = next(v for k, v in vars(mod).items() if k.startswith("Y") and isinstance(v, type))
+        try: deserialize(Y, case["datum"]); got = []
+        except ValidationError as e: got = sorted(([list(x["loc"]), x["err"]] for x in e.errors), key=json.dumps)
+        return {"real": got, "spec": case["spec"], "fails": got != case["spec"]}
     if case.get("part") == "validate()":
         r = run_real(case["validators"]); s = spec(case["validators"])
         return {"real": r, "spec": s, "fails": "crash" in r or norm(r) != s}
